@@ -1,6 +1,7 @@
 package rules
 
 import (
+	"sort"
 	"go/token"
 	"go/types"
 	"strings"
@@ -195,10 +196,36 @@ func c13(c *Ctx) {
 				}}.Reach([]ir.Point{{Block: h.Blocks[0]}}, func(ins ssa.Instruction, via *ssa.BasicBlock) {
 					if rt, ok := ins.(*ssa.Return); ok {
 						rv := ir.ResultVia(rt, 0, via)
-						if k, isConst := ir.ConstBool(rv); !isConst || k {
+						// look through negations and pick the definition that arrives over this edge:
+						// `return !(cfg != nil && !force)` is NOT(phi(false, !force))
+						pol := true
+						for depth := 0; depth < 6; depth++ {
+							if u, isNot := rv.(*ssa.UnOp); isNot && u.Op == token.NOT {
+								rv, pol = u.X, !pol
+								continue
+							}
+							if phi, isPhi := rv.(*ssa.Phi); isPhi && via != nil && phi.Block() == rt.Block() {
+								sel := ssa.Value(nil)
+								for i, p := range phi.Block().Preds {
+									if p == via {
+										sel = phi.Edges[i]
+									}
+								}
+								if sel != nil {
+									rv = sel
+									continue
+								}
+							}
+							break
+						}
+						k, isConst := ir.ConstBool(rv)
+						if isConst && !pol {
+							k = !k
+						}
+						if !isConst || k {
 							// a non-constant result may still be exactly one of the admitted tests
 							if !isConst {
-								for _, f := range ir.CondFacts(rv, true) {
+								for _, f := range ir.CondFacts(rv, pol) {
 									if forceP != nil && f.Bool != nil && f.Truth && f.Bool == ssa.Value(forceP) {
 										return
 									}
@@ -491,7 +518,16 @@ func c13(c *Ctx) {
 		}
 		var derive []ssa.Instruction
 		Calls(attach, func(cc ssa.CallInstruction) {
-			if st := ir.Callee(cc).Static; st != nil && ir.FuncIs(st, PkgFans, "ComputePwmBoundaries") {
+			st := ir.Callee(cc).Static
+			if st == nil {
+				return
+			}
+			isCompute := func(c2 ssa.CallInstruction) bool {
+				s2 := ir.Callee(c2).Static
+				return s2 != nil && ir.FuncIs(s2, PkgFans, "ComputePwmBoundaries")
+			}
+			// directly, or through a helper of the fans package that derives the limits
+			if ir.FuncIs(st, PkgFans, "ComputePwmBoundaries") || (load_FuncPkgPath(st) == PkgFans && c.reaches(st, isCompute)) {
 				derive = append(derive, cc)
 			}
 		})
@@ -579,6 +615,96 @@ func c13(c *Ctx) {
 			c.R.Bad("R-replace", key, key, c.P.Pos(derive[0].Pos()), "the limits are derived on a path on which the fan's curve data ("+field+") was not replaced by the attached data: data already held by the fan (an earlier attach, live RPM updates) is mixed into the boundaries")
 		} else {
 			c.R.Ok("R-replace", key, key, c.P.Pos(derive[0].Pos()), "before ComputePwmBoundaries every path stores the attached data (the parameter or a map made in this call) into "+field)
+		}
+		// R-derive: the boundary computation may consult an effective limit of the fan (an override hook:
+		// `if fan.GetStartPwm() < 255 { start = fan.GetStartPwm() }`). The effective limit is the configured value,
+		// or - after an earlier attach - a value measured from other data. For the limits to follow the data
+		// attached now, the measured value has to be forgotten first: before deriving, every path calls the matching
+		// setter with a constant and force=false (which resets the limit unless it is configured).
+		consulted := map[string]bool{}
+		for _, d := range derive {
+			for _, cal := range c.Callees(d.(ssa.CallInstruction)) {
+				for f := range c.Closure([]*ssa.Function{cal}, false, func(f *ssa.Function) bool { return load_FuncPkgPath(f) != PkgFans }) {
+					if f == attach {
+						continue
+					}
+					Calls(f, func(cc ssa.CallInstruction) {
+						for _, lf := range limitFields {
+							getter := "G" + strings.TrimPrefix(lf, "S") // SetStartPwm -> GetStartPwm
+							if isFanInvoke(cc, getter) {
+								consulted[lf] = true
+							}
+						}
+					})
+				}
+			}
+		}
+		var setterNames []string
+		for lf := range consulted {
+			setterNames = append(setterNames, lf)
+		}
+		sort.Strings(setterNames)
+		for _, setter := range setterNames {
+			isReset := func(ins ssa.Instruction) bool {
+				cc, ok := ins.(ssa.CallInstruction)
+				if !ok {
+					return false
+				}
+				if _, isDefer := ins.(*ssa.Defer); isDefer {
+					return false
+				}
+				isSetter := isFanInvoke(cc, setter)
+				if st := ir.Callee(cc).Static; st != nil && st.Name() == setter && st.Signature.Recv() != nil {
+					isSetter = true
+				}
+				if !isSetter {
+					return false
+				}
+				args := cc.Common().Args
+				if len(args) < 2 {
+					return false
+				}
+				_, constVal := ir.ConstInt(ir.Resolve(args[len(args)-2]))
+				force, constForce := ir.ConstBool(args[len(args)-1])
+				return constVal && constForce && !force
+			}
+			// stale: the boundary computation is reached without a reset - in the attach itself, or (when it is
+			// called through a helper) neither before the helper call nor inside the helper before the computation
+			isComputeCall := func(c2 ssa.CallInstruction) bool {
+				s2 := ir.Callee(c2).Static
+				return s2 != nil && ir.FuncIs(s2, PkgFans, "ComputePwmBoundaries")
+			}
+			var staleIn func(f *ssa.Function, depth int) bool
+			staleIn = func(f *ssa.Function, depth int) bool {
+				if len(f.Blocks) == 0 || depth > 3 {
+					return true
+				}
+				found := false
+				ir.Search{StopInstr: isReset}.Reach([]ir.Point{{Block: f.Blocks[0], Idx: 0}}, func(ins ssa.Instruction, _ *ssa.BasicBlock) {
+					cc, ok := ins.(ssa.CallInstruction)
+					if !ok || found {
+						return
+					}
+					if isComputeCall(cc) {
+						found = true
+						return
+					}
+					if st := ir.Callee(cc).Static; st != nil && st != f && load_FuncPkgPath(st) == PkgFans && c.reaches(st, isComputeCall) {
+						if staleIn(st, depth+1) {
+							found = true
+						}
+					}
+				})
+				return found
+			}
+			stale := staleIn(attach, 0)
+			getter := "G" + strings.TrimPrefix(setter, "S")
+			k2 := key + "|" + getter
+			if stale {
+				c.R.Bad("R-derive", k2, key, c.P.Pos(derive[0].Pos()), "the boundary computation consults "+getter+"() - the effective limit, which after an earlier attach is a value measured from other data - and the attach does not reset that limit ("+setter+"(<constant>, false)) before deriving: limits measured from previously attached data stick instead of following the data attached now")
+			} else {
+				c.R.Ok("R-derive", k2, key, c.P.Pos(derive[0].Pos()), "the limit consulted by the boundary computation through "+getter+"() is reset ("+setter+"(<constant>, false): kept only if configured) on every path before the limits are derived")
+			}
 		}
 	}
 	if nrep == 0 {
